@@ -293,6 +293,6 @@ def run (fx : Fixes) (sc : Scenario) (race : Bool) : Obs :=
           prepend (pre ++ sigIf (!lp.cancelled)) (shutdownSeq fx sc race true lp.post lp.res)
 
 /-- the code in /repo now -/
-def current : Fixes := asShipped
+def current : Fixes := repaired
 
 end Rivaas.Lifecycle
